@@ -46,4 +46,5 @@ def run(ctx, rep):
     # M17 / M18: the .m branches and the C++ routines of sample declarations line up (ids, counts, positions, defaults) (= C05 I10, I11)
     rep.run(RID.rule_call_sites_by_evaluation, ctx, rep, "M17")
     rep.run(RID.rule_routines_by_evaluation, ctx, rep, "M18")
+    rep.run(RID.rule_property_accessors_by_evaluation, ctx, rep, "M19", parts=("routines",))
     rep.run(RF.rule_locals_defined, ctx, rep, "U1", packages=("gtwrap/matlab_wrapper",), min_functions=3)
